@@ -7,6 +7,7 @@ import Driver.Ogg
 import Driver.Detect
 import Driver.Info
 import Driver.Signal
+import Driver.FlacC
 open Driver
 
 def dispatch (line : String) : String :=
@@ -22,6 +23,7 @@ def dispatch (line : String) : String :=
     | "det" => detOp a
     | "mpeg" => mpegOp a
     | "sig" => sigOp a
+    | "flacc" => flaccOp a
     | "flacinfo" => flacInfoOp a
     | "ping" => "pong"
     | _ => "bad-op"
